@@ -8,6 +8,7 @@
   run time (its emitted extension string always re-parses: C05).
 -/
 import UnicLocale.SrcTie.Macros
+import UnicLocale.SrcTie.ListMacros
 import UnicLocale.Props.C16
 
 namespace UL.SrcTie.TransferMacros
@@ -34,5 +35,25 @@ theorem locale_macro (lit : Bytes) : UL.Src.Macros.locale lit = required (UL.Src
 /-- `locale!` of the source never panics at run time -/
 theorem locale_macro_no_runtime_panic (lit : Bytes) : UL.Src.Macros.locale lit ≠ .runtimePanic := by
   rw [UL.SrcTie.Macros.locale_eq]; exact UL.Props.C16.locale_macro_no_runtime_panic lit
+
+/-- the list macros as their `macro_rules!` text says them: a value (the list of the elements' run-time parses) iff every element
+    parses, a compile error otherwise; `langids!`, `langid_slice!` -/
+theorem langids_macro (ls : List Bytes) :
+    UL.Src.Macros.langids ls =
+      (if ls.all (fun l => (UL.Src.LangId.fromStr l).isOk) then .value (ls.filterMap (fun l => (UL.Src.LangId.fromStr l).toOption))
+       else .compileError) ∧
+    UL.Src.Macros.langidSlice ls = UL.Src.Macros.langids ls := by
+  have hf : UL.Src.LangId.fromStr = LangId.fromBytes := funext UL.SrcTie.LangId.fromStr_eq
+  refine ⟨?_, ?_⟩
+  · rw [UL.SrcTie.Macros.langids_eq, hf]; exact UL.Props.C16.langids_macro ls
+  · rw [UL.SrcTie.Macros.langidSlice_eq, UL.SrcTie.Macros.langids_eq]
+
+/-- `locales!` -/
+theorem locales_macro (ls : List Bytes) :
+    UL.Src.Macros.locales ls =
+      if ls.all (fun l => (UL.Src.Locale.fromStr l).isOk) then .value (ls.filterMap (fun l => (UL.Src.Locale.fromStr l).toOption))
+      else .compileError := by
+  have hf : UL.Src.Locale.fromStr = Locale.fromBytes := funext UL.SrcTie.Locale.fromStr_eq
+  rw [UL.SrcTie.Macros.locales_eq, hf]; exact UL.Props.C16.locales_macro ls
 
 end UL.SrcTie.TransferMacros
